@@ -13,6 +13,7 @@ Correspondence (exact): records of the written file vs `c14_write`; what `csep.l
   `c14_read` on those records; dict / JSON and DataFrame round trips vs `c14_dict_rt` / `c14_frame_rt`; time cells vs
   `c14_timestr`; a malformed stream for the reader only.
 """
+import contextlib
 import csv
 import datetime as _dt
 import hashlib
@@ -22,6 +23,7 @@ import os
 import shutil
 import struct
 import tempfile
+import time
 
 from .core import Driver, frac, VERIF
 
@@ -40,7 +42,8 @@ DESIGN_REF = "DESIGN.md §4 C14"
 TECHNIQUE = "Lean 4 proof (list induction over the record model + Time codec lemmas) with differential correspondence"
 
 THEOREMS = ["Persist.time_string_roundtrip", "Persist.time_string_fraction_iff", "Persist.ascii_roundtrip",
-            "Persist.ascii_catalog_id", "Persist.dict_roundtrip", "Persist.dataframe_roundtrip", "Persist.append_concat"]
+            "Persist.ascii_catalog_id", "Persist.dict_roundtrip", "Persist.dataframe_roundtrip", "Persist.append_concat",
+            "Persist.ascii_keeps_duplicates", "Persist.dataframe_dict_keep_count"]
 TRUSTED = ["Lean 4.33 kernel", "axioms: propext, Classical.choice, Quot.sound at most",
            "float text codec str(numpy.float64(x)) / float(text) is the identity on finite doubles "
            "(hypothesis of the theorems; checked bitwise on every float cell the harness sees)",
@@ -56,11 +59,47 @@ RULE = ("catalogs of 0..40 events (sizes 0, 1, 2, 40 always present) built with 
         "catalog is the reference), with ',' '\"' ';' quotes, leading/trailing/only spaces, number-like ids, 'lon', '#x', "
         "backslash; origin times uniform in 1900-01-01..2200-01-01, every millisecond phase 0..999 of random whole "
         "seconds, pre-1970, boundary values; coordinates/depth/magnitude as shortest-repr decimals, 17-digit doubles, "
-        "nextafter neighbours, +-90/+-180, +-0.0, 5e-324, 1e-300, 1.7976931348623157e308; catalog_id in "
-        "{None, 0, 1, -1, -5, 7, 2^31, 2^62, random}; name None/string; region None or a small CartesianGrid2D. Every "
-        "catalog goes through ASCII (header/empty options, append pairs), dict, JSON and DataFrame. A (catalog, format) "
-        "evaluation is non-trivial when the catalog is empty, has an event with ms % 1000 != 0, or an id containing one "
-        "of , \" ; or a space; distinct by the SHA-1 of the replay case (catalog content + format + options).")
+        "nextafter neighbours, +-90/+-180, +-0.0, 5e-324, 1e-300, 1.7976931348623157e308, values within 1e-4 of zero "
+        "(exponent notation in the file); catalog_id in {None, 0, 1, -1, -5, 7, 2^31, 2^53-1, 2^53, 2^53+1, 2^62, 2^62+1, "
+        "2^63-1, -2^63, 2^63, 2^64+5, -2^70, random 54..63-bit, random}; name None/string; region None or a small "
+        "CartesianGrid2D whose origins are a float array or an integer-dtype array (int64/int32 lattice built from "
+        "range(), dh an int or a float). 30% of the catalogs with >= 2 events contain events identical in all six "
+        "fields (adjacent copies, distant copies, a catalog of n copies of one event). Every catalog goes through ASCII "
+        "(header/empty options, append pairs), dict, JSON and DataFrame, with the process's local time zone cycling "
+        "through UTC, Asia/Tokyo, America/Los_Angeles, Europe/London and POSIX TZ strings (restored afterwards). A "
+        "(catalog, format) evaluation is non-trivial when the catalog is empty, has an event with ms % 1000 != 0, an id "
+        "containing one of , \" ; or a space, or two identical events; distinct by the SHA-1 of the replay case "
+        "(catalog content + format + options + zone).")
+
+# sub-classes on which the UNCHANGED pyCSEP contradicts the property: generated only once a decision (fix or known
+# finding) has removed them from this list; see notes/C14.md "Awaiting decision"
+AWAITING_DECISION = []   # "numpy-integer catalog_id through JSON" was fixed in /repo (D31, 532c783)
+
+# ---- the process's local time zone must not matter (stored times are UTC epoch milliseconds)
+ZONES = [None, "Asia/Tokyo", "America/Los_Angeles", None, "Europe/London", "JST-9", "PST8PDT,M3.2.0,M11.1.0",
+         "NST3:30NDT,M3.2.0,M11.1.0", "Pacific/Kiritimati", "America/St_Johns", "Australia/Lord_Howe"]
+_ZONE_OK = {}
+
+
+@contextlib.contextmanager
+def local_zone(zone):
+    """run the body with the process's local time zone set to `zone` (None = leave as is); always restored"""
+    if zone is None:
+        yield
+        return
+    old = os.environ.get("TZ")
+    try:
+        os.environ["TZ"] = zone
+        time.tzset()
+        if zone not in _ZONE_OK:   # a zone name unknown to the C library silently means UTC
+            _ZONE_OK[zone] = any(time.localtime(t).tm_gmtoff != 0 for t in (0, 15552000, 1600000000, 1610000000))
+        yield
+    finally:
+        if old is None:
+            os.environ.pop("TZ", None)
+        else:
+            os.environ["TZ"] = old
+        time.tzset()
 
 MS_LO = -2208988800000   # 1900-01-01
 MS_HI = 7258118400000    # 2200-01-01
@@ -140,14 +179,31 @@ def build_region(rs):
     if rs is None:
         return None
     origins = numpy.array([[float.fromhex(x), float.fromhex(y)] for x, y in rs["origins"]])
+    dh = float.fromhex(rs["dh"])
+    if rs.get("origins_dtype"):      # a lattice given as an integer-dtype array (grid built from range())
+        origins = numpy.array([[int(float.fromhex(x)), int(float.fromhex(y))] for x, y in rs["origins"]],
+                              dtype=rs["origins_dtype"])
+    if rs.get("dh_kind") == "int":
+        dh = int(dh)
+    elif rs.get("dh_kind"):
+        dh = getattr(numpy, rs["dh_kind"])(dh)
     mags = rs.get("magnitudes")
     mags = None if mags is None else numpy.array([float.fromhex(m) for m in mags])
-    return CartesianGrid2D.from_origins(origins, dh=float.fromhex(rs["dh"]), magnitudes=mags, name=rs.get("name"))
+    return CartesianGrid2D.from_origins(origins, dh=dh, magnitudes=mags, name=rs.get("name"))
+
+
+def build_catid(spec):
+    """the catalog id of a spec: a Python int / None, or (spec['catalog_id_np'] = numpy type name) a numpy integer"""
+    cid = spec["catalog_id"]
+    if cid is not None and spec.get("catalog_id_np"):
+        import numpy
+        return getattr(numpy, spec["catalog_id_np"])(cid)
+    return cid
 
 
 def build(spec, with_region=True):
     from csep.core.catalogs import CSEPCatalog
-    return CSEPCatalog(data=[event_of_spec(s) for s in spec["events"]], catalog_id=spec["catalog_id"],
+    return CSEPCatalog(data=[event_of_spec(s) for s in spec["events"]], catalog_id=build_catid(spec),
                        name=spec["name"], region=build_region(spec["region"]) if with_region else None)
 
 
@@ -158,7 +214,11 @@ def nontrivial(spec, spec2=None):
     for s in evs:
         if s[1] % 1000 != 0 or any(c in bytes.fromhex(s[0]).decode("ascii") for c in ',"; '):
             return True
-    return False
+    return has_duplicates(spec) or (spec2 is not None and has_duplicates(spec2))
+
+
+def has_duplicates(spec):
+    return len({tuple(s) for s in spec["events"]}) < len(spec["events"])
 
 
 def case_key(case):
@@ -169,7 +229,7 @@ def summary(case):
     """short description of a case for the evidence samples"""
     c = case["cat"]
     s = dict(fmt=case["fmt"], n=len(c["events"]), catalog_id=c["catalog_id"], name=c["name"],
-             region=None if c["region"] is None else len(c["region"]["origins"]), opts=case.get("opts"))
+             region=None if c["region"] is None else len(c["region"]["origins"]), opts=case.get("opts"), tz=case.get("tz"))
     if c["events"]:
         e = event_of_spec(c["events"][0])
         s["first"] = [e[0][:24], e[1], e[2], e[3], e[4], e[5]]
@@ -305,6 +365,15 @@ class Ctx:
         self.run.count("format:" + case["fmt"])
         for b in branches:
             self.run.count(b)
+        if has_duplicates(spec) or ("cat2" in case and has_duplicates(case["cat2"])):
+            self.run.count("catalog with events identical in all six fields")
+        cid = spec["catalog_id"]
+        if cid is not None and abs(cid) > 2 ** 53:
+            self.run.count("catalog_id beyond 2^53" + (" (beyond int64)" if not -2 ** 63 <= cid < 2 ** 63 else ""))
+        if spec.get("catalog_id_np"):
+            self.run.count("catalog_id numpy." + spec["catalog_id_np"])
+        if spec["region"] is not None and spec["region"].get("origins_dtype"):
+            self.run.count(f"region origins {spec['region']['origins_dtype']}, dh {spec['region'].get('dh_kind') or 'float'}")
 
 
 def _clip(s, lim=600):
@@ -477,7 +546,9 @@ def compare_region(what, region, got, fails):
     if got is None or type(got) is not type(region):
         fails.append((f"{what}: region {type(region).__name__} -> {type(got).__name__}", None))
         return
-    norm = lambda r: json.loads(json.dumps(r.to_dict(), sort_keys=True))
+    # a value json cannot express (numpy scalar, ...) is kept as a tagged string: it must come back as the same number
+    norm = lambda r: json.loads(json.dumps(r.to_dict(), sort_keys=True,
+                                           default=lambda o: f"<{type(o).__name__}:{o!r}>"))
     if not (got == region) or norm(got) != norm(region):
         fails.append((f"{what}: region differs: {_clip(norm(region), 200)} -> {_clip(norm(got), 200)}", None))
         return
@@ -666,6 +737,19 @@ SPECIAL_IDS = [",", '"', ";", "'", " ", "   ", " a", "a ", " a ", "a b", '""', '
 SPECIAL_MS = [-1097606850620, 0, -1, -999, -1000, 999, 1000, 1, -1001, 1001, MS_LO, MS_LO + 1, MS_LO + 999, MS_HI,
               MS_HI - 1, MS_HI - 999, 951782400000, 951868799999, 4107542400000 - 1, 4107542400000]
 CATALOG_IDS = [0, 1, -1, -5, 7, 2 ** 31, 2 ** 62, None]
+BIG_CATALOG_IDS = [2 ** 53 - 1, 2 ** 53, 2 ** 53 + 1, -(2 ** 53 + 1), 2 ** 62 + 1, 2 ** 63 - 1, -2 ** 63, -(2 ** 63 - 1),
+                   2 ** 63, 2 ** 64 - 1, 2 ** 64 + 5, -2 ** 70, 10 ** 18 + 1, 10 ** 19 + 3, 0, -1]
+
+
+def gen_catalog_id(rng):
+    p = rng.random()
+    if p < 0.55:
+        return rng.choice(CATALOG_IDS)
+    if p < 0.70:
+        return rng.choice(BIG_CATALOG_IDS)
+    if p < 0.85:      # a 54..63-bit hash / seed used as ensemble member id: odd, so not representable as a double
+        return rng.choice([1, -1]) * (rng.getrandbits(rng.randint(54, 63)) | (1 << 53) | 1)
+    return rng.randrange(-10 ** 6, 10 ** 12)
 NAMES = [None, None, "cat", "", "a b,c\"d", "ETAS forecast #3; run 'x'", "None", "0"]
 
 
@@ -704,7 +788,10 @@ def gen_float(rng, kind, mode):
     """kind: lat | lon | depth | mag; mode: short | digits17 | extreme | mixed"""
     lo, hi = {"lat": (-90.0, 90.0), "lon": (-180.0, 180.0), "depth": (0.0, 700.0), "mag": (-1.0, 9.5)}[kind]
     if mode == "mixed":
-        mode = rng.choice(["short", "short", "digits17", "digits17", "extreme", "neighbour"])
+        mode = rng.choice(["short", "short", "digits17", "digits17", "extreme", "neighbour", "tiny"])
+    if mode == "tiny":         # within 1e-4 of zero: str() is in exponent notation
+        x = rng.uniform(1.0, 9.999) * 10.0 ** -rng.randint(5, 12)
+        return -x if lo < 0 and rng.random() < 0.5 else x
     if mode == "short":
         return round(rng.uniform(lo, hi), rng.randint(0, 6))
     if mode == "digits17":
@@ -722,10 +809,17 @@ def gen_float(rng, kind, mode):
 
 
 def gen_region(rng, with_magnitudes):
-    """a small CartesianGrid2D (as JSON spec): lattice x0 + i*dh, y0 + j*dh with some cells removed"""
-    dh = rng.choice([0.1, 0.5, 1.0, 0.25])
-    x0 = round(rng.randint(-40, 40) * dh * rng.choice([1, 4]), 2)
-    y0 = round(rng.randint(-20, 20) * dh * rng.choice([1, 4]), 2)
+    """a small CartesianGrid2D (as JSON spec): lattice x0 + i*dh, y0 + j*dh with some cells removed. 30%: an integer
+    lattice whose origins are handed over as an integer-dtype array (grid built from range()), dh an int or a float"""
+    integer = rng.random() < 0.3
+    if integer:
+        dh = float(rng.choice([1, 1, 2, 5]))
+        x0 = float(rng.randint(-170, 170))
+        y0 = float(rng.randint(-80, 80))
+    else:
+        dh = rng.choice([0.1, 0.5, 1.0, 0.25])
+        x0 = round(rng.randint(-40, 40) * dh * rng.choice([1, 4]), 2)
+        y0 = round(rng.randint(-20, 20) * dh * rng.choice([1, 4]), 2)
     nx, ny = rng.randint(1, 4), rng.randint(1, 4)
     cells = [(i, j) for j in range(ny) for i in range(nx)]
     if len(cells) > 2 and rng.random() < 0.5:
@@ -733,16 +827,20 @@ def gen_region(rng, with_magnitudes):
             cells.remove(c)
     origins = [[round(x0 + i * dh, 2), round(y0 + j * dh, 2)] for i, j in cells]
     mags = [round(2.5 + 0.5 * k, 1) for k in range(rng.randint(1, 8))] if with_magnitudes else None
-    return dict(origins=[[float(x).hex(), float(y).hex()] for x, y in origins], dh=float(dh).hex(),
-                name=rng.choice([None, "grid", "test region"]),
-                magnitudes=None if mags is None else [float(m).hex() for m in mags])
+    out = dict(origins=[[float(x).hex(), float(y).hex()] for x, y in origins], dh=float(dh).hex(),
+               name=rng.choice([None, "grid", "test region"]),
+               magnitudes=None if mags is None else [float(m).hex() for m in mags])
+    if integer:
+        out["origins_dtype"] = rng.choice(["int64", "int64", "int32", "int16", None])
+        out["dh_kind"] = rng.choice(["int", "int", None, "int64", "float32"])
+    return out
 
 
 def gen_catalog(rng, n, pool, force=None):
     """JSON spec of one catalog + the options of its DataFrame form"""
     id_mode = rng.choice(["special", "random", "random", "long"]) if n <= 12 else rng.choice(["special", "random", "random"])
     ms_mode = force or rng.choice(["uniform", "uniform", "special", "whole", "pre1970", "phase"])
-    fl_mode = rng.choice(["short", "digits17", "extreme", "mixed", "mixed"])
+    fl_mode = rng.choice(["short", "digits17", "extreme", "mixed", "mixed", "mixed", "tiny"])
     region, inside = None, False
     if rng.random() < 0.35:
         inside = rng.random() < 0.5      # events inside the region: the DataFrame form keeps the region
@@ -759,12 +857,33 @@ def gen_catalog(rng, n, pool, force=None):
             lon, lat, mag = gen_float(rng, "lon", fl_mode), gen_float(rng, "lat", fl_mode), gen_float(rng, "mag", fl_mode)
         events.append(spec_event(gen_id(rng, id_mode), gen_ms(rng, ms_mode, pool), lat, lon,
                                  gen_float(rng, "depth", fl_mode), mag))
-    cid = rng.choice(CATALOG_IDS) if rng.random() < 0.8 else rng.randrange(-10 ** 6, 10 ** 12)
-    spec = dict(events=events, catalog_id=cid, name=rng.choice(NAMES), region=region)
+    if n >= 2 and rng.random() < 0.3:
+        # events identical in all six fields (doublets listed twice, merged download windows): every copy must survive
+        kind = rng.choice(["adjacent", "distant", "many", "all"])
+        if kind == "all":
+            events = [list(events[0]) for _ in range(n)]
+        else:
+            for _ in range(1 if kind != "many" else rng.randint(2, max(2, n // 2))):
+                i = rng.randrange(n)
+                j = (i + 1) % n if kind == "adjacent" else rng.randrange(n)
+                events[j] = list(events[i])
+    spec = dict(events=events, catalog_id=gen_catalog_id(rng), name=rng.choice(NAMES), region=region)
+    if "numpy-integer catalog_id through JSON" not in AWAITING_DECISION and spec["catalog_id"] is not None \
+            and -2 ** 31 <= spec["catalog_id"] < 2 ** 31 and rng.random() < 0.15:
+        spec["catalog_id_np"] = rng.choice(["int64", "int32", "uint64" if spec["catalog_id"] >= 0 else "int64"])
     return spec, dict(with_region=inside)
 
 
 def check_case(ctx, case):
+    """one case, under the local time zone the case names (`tz`; absent = the process's own)"""
+    zone = case.get("tz")
+    if zone is not None:
+        ctx.run.count("tz:" + zone)
+    with local_zone(zone):
+        _check_case(ctx, case)
+
+
+def _check_case(ctx, case):
     kind, fmt = case.get("kind"), case.get("fmt")
     if kind == "malformed":
         check_malformed(ctx, case)
@@ -797,6 +916,17 @@ def _timestr_impl(ms):
 
 def check_catalog(ctx, spec, frame_opts, serial, prev):
     """one generated catalog through all formats. `prev` = the previous catalog (partner for append mode)."""
+    zone = ZONES[serial % len(ZONES)]
+    if zone is not None:
+        class _Z:                    # every case of this catalog carries the zone (so a replay runs under it too)
+            @staticmethod
+            def check(ctx, case):
+                check_case(ctx, dict(case, tz=zone))
+        return _check_catalog(ctx, spec, frame_opts, serial, prev, _Z.check)
+    return _check_catalog(ctx, spec, frame_opts, serial, prev, check_case)
+
+
+def _check_catalog(ctx, spec, frame_opts, serial, prev, check_case):
     combos = [(True, True), (True, False), (False, True), (False, False)]
     todo = combos if not spec["events"] else [combos[serial % 4]]
     for hdr, emp in todo:
@@ -865,6 +995,11 @@ def run(run, rng, tier):
                 ctx.flush()
         ctx.flush()
         run.extra["catalogs"] = serial
+        run.extra["local_zones_effective"] = sorted(z for z, ok in _ZONE_OK.items() if ok)
+        run.extra["awaiting_decision"] = list(AWAITING_DECISION)
+        dead = sorted(z for z, ok in _ZONE_OK.items() if not ok)
+        if dead:
+            run.assumptions.append(f"time zones {dead} are unknown to the C library here (local time stayed UTC under them)")
         run.extra["distinct_origin_times"] = len(ctx.seen_ms)
     finally:
         shutil.rmtree(tmp, ignore_errors=True)
